@@ -13,7 +13,7 @@ from ..fsm_model import FsmModel, cell_context, summarize_outcome
 from ..oracles import ps3_8
 from ..provider_model import (ProviderModel, PRODUCERS, action_raise_sets, blocking_problems,
                               cond_says_socket_present, make_raises, parse_cond, pdu_decode_raise_set)
-from ..srcmodel import AnalysisError
+from ..srcmodel import AnalysisError, norm
 from ..sym import empty_state
 from .c04 import cell_key
 
@@ -142,6 +142,44 @@ def run(repo, rep):
                   '%s(): a failing DIMSE reassembly does not propagate out of the action' % meth,
                   '%s(): DIMSEDecoder.process may raise on malformed P-DATA (%s) and nothing in the action catches it; '
                   'the exception leaves action() instead of leading to AA-8' % (meth, ', '.join(decode_exc)))
+
+    # E8 ---------------------------------------------------------------------
+    rep.rule('C12.E8', 'the DIMSE reassembler does not absorb its own failures: every handler in DIMSEDecoder.process (helpers and '
+             'context managers spliced in) that catches broadly -- bare, Exception, BaseException -- ends by raising on every path, '
+             'so an undecodable P-DATA reaches the abort action of its cell (E2)', 1)
+    proc = repo.func('fsm', 'DIMSEDecoder.process')
+    rep.analysed(proc)
+    p8 = []
+    n_h8 = 0
+
+    def always_raises(stmts) -> bool:
+        for st_ in stmts:
+            if isinstance(st_, ast.Raise):
+                return True
+            if isinstance(st_, ast.If) and st_.orelse and always_raises(st_.body) and always_raises(st_.orelse):
+                return True
+            if isinstance(st_, ast.Try) and st_.finalbody and always_raises(st_.finalbody):
+                return True
+            if isinstance(st_, ast.Try) and always_raises(st_.body) and all(always_raises(h_.body) for h_ in st_.handlers) and not st_.orelse:
+                return True
+            if isinstance(st_, (ast.With,)) and always_raises(st_.body):
+                return True
+        return False
+    for hf in repo.helper_closure(proc):
+        for n_ in ast.walk(hf.node):
+            if isinstance(n_, ast.Try):
+                for h_ in n_.handlers:
+                    tnames = []
+                    if h_.type is not None:
+                        tnames = [norm(x).split('.')[-1] for x in (h_.type.elts if isinstance(h_.type, ast.Tuple) else [h_.type])]
+                    if h_.type is None or any(t in ('Exception', 'BaseException') for t in tnames):
+                        n_h8 += 1
+                        if not always_raises(h_.body):
+                            p8.append('%s line %d: ``except %s`` has a path that ends without raising: a PDV that cannot be decoded is '
+                                      'dropped silently, the association goes on with a half-filled decoder and no A-ABORT is sent'
+                                      % (hf.qualname, h_.lineno, norm(h_.type) if h_.type is not None else ''))
+    rep.check(not p8, 'C12.E8', 'fsm:DIMSEDecoder.process:failures-propagate', proc.loc(),
+              '%d broad handler(s), each re-raises on every path' % n_h8, '; '.join(p8))
 
     # E7 ---------------------------------------------------------------------
     p7 = []
